@@ -27,6 +27,8 @@ func init() {
 		Run:      runC18,
 		Thorough: thoroughC18,
 		Mutants: []Mutant{
+			{Name: "v6-flag-shared-by-all-pools", File: "internal/config/validation.go",
+				Old: "\tfor _, p := range cfg.Pools.ByName {\n\t\tcontainsV6 := false\n", New: "\tcontainsV6 := false\n\tfor _, p := range cfg.Pools.ByName {\n", Expect: "MAP-CARRY"},
 			{Name: "sortedcopy-indexes-input", File: "internal/k8s/controllers/config_conversion.go",
 				Old: "\t\tfirst := PT(&res[i])\n\t\tsecond := PT(&res[j])", New: "\t\tfirst := PT(&toSort[i])\n\t\tsecond := PT(&toSort[j])", Expect: "SORT-IDX"},
 			{Name: "namespace-index-unsorted", File: "internal/config/config.go",
@@ -69,6 +71,7 @@ func runC18(p *chk.Prog, r *chk.Report) {
 	c18Compare(p, r)
 	c18Normalise(p, r)
 	c18MapExit(p, r)
+	c18MapCarry(p, r)
 }
 
 // c18Normalise: validateLabelSelectorDuplicate is not pure - it sorts the Values of every match expression of the
@@ -493,4 +496,130 @@ func thoroughC18(p *chk.Prog, r *chk.Report) {
 		lines = append(lines, fd.Key()+" at "+p.Rel(fd.Pos)+": "+fd.Detail)
 	}
 	r.Extra["thorough_maporder_candidates_repo_wide"] = lines
+}
+
+// c18MapCarry: a decision taken for one element of a map range must not depend on the elements visited before it.
+// A boolean local that is declared outside the loop, assigned inside it and tested inside it carries state from one
+// iteration to the next unless every test is preceded, in the same iteration, by an assignment that does not read it
+// (a per-element flag that is reset first).
+func c18MapCarry(p *chk.Prog, r *chk.Report) {
+	x := r.Rule("MAP-CARRY", "A map order (loop-carried state)", "in the call-graph closure of toConfig / config.For / the mode validators no range over a map tests a boolean that an earlier iteration may have set: a local declared outside such a loop and assigned inside it is, at every test inside the loop, freshly assigned in the same iteration", 0)
+	roots := c18Roots(p)
+	if len(roots) < 5 {
+		return
+	}
+	a := p.AnalyseMapOrder(roots...)
+	n := 0
+	for _, f := range a.Funcs {
+		if f.Body == nil {
+			continue
+		}
+		g := f.Graph()
+		for _, rs := range f.RangeLoops(func(e ast.Expr) bool {
+			tv, ok := f.Info().Types[e]
+			if !ok || tv.Type == nil {
+				return false
+			}
+			_, isMap := tv.Type.Underlying().(*types.Map)
+			return isMap
+		}) {
+			n++
+			cands := map[types.Object]bool{}
+			ast.Inspect(rs.Body, func(nd ast.Node) bool {
+				as, ok := nd.(*ast.AssignStmt)
+				if !ok || as.Tok != token.ASSIGN {
+					return true
+				}
+				for _, l := range as.Lhs {
+					id, isId := l.(*ast.Ident)
+					if !isId {
+						continue
+					}
+					v, isVar := f.ObjOf(id).(*types.Var)
+					if !isVar || v.IsField() || (v.Pos() >= rs.Pos() && v.Pos() <= rs.End()) {
+						continue
+					}
+					if b, isB := v.Type().Underlying().(*types.Basic); !isB || b.Info()&types.IsBoolean == 0 {
+						continue
+					}
+					cands[v] = true
+				}
+				return true
+			})
+			for v := range cands {
+				for _, b := range g.Blocks {
+					if len(b.Succs) != 2 || len(b.Nodes) == 0 {
+						continue
+					}
+					c := g.EdgeCondExpr(b, 0)
+					if c == nil || !chk.InBody(rs, c) {
+						continue
+					}
+					uses := false
+					ast.Inspect(c, func(m ast.Node) bool {
+						if id, ok := m.(*ast.Ident); ok && f.ObjOf(id) == v {
+							uses = true
+						}
+						return true
+					})
+					if !uses {
+						continue
+					}
+					okReset := resetInIteration(f, g, rs, b.Nodes[len(b.Nodes)-1], v)
+					if !okReset {
+						// `if found { break }` for a flag that is only ever set to true: the loop merely stops early,
+						// what it computed does not depend on the order
+						if ifs, isIf := f.Prog.Parent(c).(*ast.IfStmt); isIf && ifs.Cond == c && ifs.Else == nil && len(ifs.Body.List) == 1 {
+							if br, isBr := ifs.Body.List[0].(*ast.BranchStmt); isBr && br.Tok == token.BREAK && br.Label == nil {
+								mono := true
+								for _, a := range assignsTo(f, v) {
+									as, isAs := a.(*ast.AssignStmt)
+									if !isAs || len(as.Lhs) != len(as.Rhs) {
+										mono = false
+										continue
+									}
+									for i, l := range as.Lhs {
+										if id, isId := l.(*ast.Ident); isId && f.ObjOf(id) == v && !f.IsConstBool(as.Rhs[i], true) && chk.InBody(rs, as) {
+											mono = false
+										}
+									}
+								}
+								okReset = mono
+							}
+						}
+					}
+					// a test whose only effect is to leave the loop (found-flag with break) does not decide anything per element
+					x.Check(f.Name()+":"+v.Name()+"@"+f.Prog.Rel(rs.Pos()), c.Pos(), okReset, "", "the flag "+v.Name()+" is tested inside a range over a map although an earlier element may have set it: what is decided for one element depends on the (random) order in which the map is visited")
+				}
+			}
+		}
+	}
+	r.Extra["mapcarry_loops"] = n
+}
+
+// resetInIteration: on every path from the start of the loop body to the test, the variable is assigned from a value
+// that does not depend on it.
+func resetInIteration(f *chk.Fn, g *chk.Graph, rs *ast.RangeStmt, test ast.Node, v types.Object) bool {
+	isReset := func(n ast.Node) bool {
+		as, ok := n.(*ast.AssignStmt)
+		if !ok {
+			return false
+		}
+		for i, l := range as.Lhs {
+			if id, isId := l.(*ast.Ident); isId && (f.ObjOf(id) == v) && i < len(as.Rhs) {
+				reads := false
+				ast.Inspect(as.Rhs[i], func(m ast.Node) bool {
+					if id2, ok := m.(*ast.Ident); ok && f.ObjOf(id2) == v {
+						reads = true
+					}
+					return true
+				})
+				return !reads
+			}
+		}
+		return false
+	}
+	start := bodyStart(g, rs)
+	w := g.MustPass(chk.Site{G: g, B: start.B, I: -1}, func(n ast.Node) bool { return n == test }, false, isReset)
+	return !w.Found
 }
